@@ -97,8 +97,10 @@ Proof.
   assert (K : forall p r, nodup_ids (nodes r) -> tombs r = [] ->
               wf (set p r S) /\ no_tombs (set p r S) /\ length (set p r S) = length S).
   { intros p r H1 H2. repeat split; [apply wf_set|apply no_tombs_set|apply length_set]; assumption. }
-  destruct o as [p x t sg|p x t sg|p x t|p x y t sg|p x y t sg|d s days]; cbn [step is_delete] in *.
+  destruct o as [p x t sg|p x0 t sgs|p x t sg|p x t|p x y t sg|p x y t sg|d s days]; cbn [step is_delete] in *.
   - cbn [fst]. apply K; unfold with_nodes; cbn [nodes tombs]; [apply nodup_ids_put; apply Hw|apply Ht].
+  - destruct (create_rows_fields sgs (get p S) x0 t) as [CT [_ [_ CN]]].
+    destruct (create_rows (get p S) x0 t sgs) as [r g]. cbn [fst] in *. apply K; [apply CN; apply Hw|rewrite CT; apply Ht].
   - destruct (find_node x (nodes (get p S))); cbn [fst]; [|auto].
     apply K; unfold with_nodes; cbn [nodes tombs]; [apply nodup_ids_put; apply Hw|apply Ht].
   - discriminate.
@@ -128,8 +130,9 @@ Qed.
 (* ====================================================================================== *)
 Lemma length_step : forall S o, length (fst (fst (step S o))) = length S.
 Proof.
-  intros S o. destruct o as [p x t sg|p x t sg|p x t|p x y t sg|p x y t sg|d s days]; cbn [step].
+  intros S o. destruct o as [p x t sg|p x0 t sgs|p x t sg|p x t|p x y t sg|p x y t sg|d s days]; cbn [step].
   - apply length_set.
+  - destruct (create_rows (get p S) x0 t sgs). cbn [fst]. apply length_set.
   - destruct (find_node x (nodes (get p S))); cbn [fst]; [apply length_set|reflexivity].
   - destruct (find_node x (nodes (get p S))); cbn [fst]; [apply length_set|reflexivity].
   - destruct (find_node x (nodes (get p S))); [|reflexivity]. destruct (find_node y (nodes (get p S))); [|reflexivity].
@@ -156,7 +159,7 @@ Lemma still_fixed : forall final S, still S final = true ->
   (forall d s days, In (Pull d s days) final -> pull_still (get d S) (get s S) days = true).
 Proof.
   induction final as [|o final IH]; intros S H; [repeat split; intros d s days []|].
-  destruct o as [p x t sg|p x t sg|p x t|p x y t sg|p x y t sg|d s days]; cbn [still] in H; try discriminate.
+  destruct o as [p x t sg|p x0 t sgs|p x t sg|p x t|p x y t sg|p x y t sg|d s days]; cbn [still] in H; try discriminate.
   apply Bool.andb_true_iff in H. destruct H as [H1 H2]. destruct (IH S H2) as [I1 [I2 I3]].
   assert (E : fst (fst (step S (Pull d s days))) = S).
   { cbn [step]. rewrite (pull_still_fixed _ _ _ H1). cbn [fst]. apply set_get_same. }
@@ -170,7 +173,7 @@ Lemma run_complete_still : forall final S, still S final = true -> run_complete 
   forall d s days, In (Pull d s days) final -> days_cover days (needed_days (get d S) (get s S)) = true.
 Proof.
   induction final as [|o final IH]; intros S H Hc d s days Hin; [inversion Hin|].
-  destruct o as [p x t sg|p x t sg|p x t|p x y t sg|p x y t sg|d0 s0 days0]; cbn [still] in H; try discriminate.
+  destruct o as [p x t sg|p x0 t sgs|p x t sg|p x t|p x y t sg|p x y t sg|d0 s0 days0]; cbn [still] in H; try discriminate.
   apply Bool.andb_true_iff in H. destruct H as [H1 H2].
   cbn [run_complete] in Hc. apply Bool.andb_true_iff in Hc. destruct Hc as [Hc0 Hc].
   assert (E : fst (fst (step S (Pull d0 s0 days0))) = S).
@@ -373,7 +376,7 @@ Proof.
   apply Bool.orb_true_iff in H. destruct H as [H|H].
   - apply N.eqb_eq in H. contradiction.
   - apply existsb_exists in H. destruct H as [o [Hin Hp]].
-    destruct o as [p x t sg|p x t sg|p x t|p x y t sg|p x y t sg|d' s' days]; try discriminate. cbn [is_pull] in Hp.
+    destruct o as [p x t sg|p x0 t sgs|p x t sg|p x t|p x y t sg|p x y t sg|d' s' days]; try discriminate. cbn [is_pull] in Hp.
     apply Bool.andb_true_iff in Hp. destruct Hp as [H1 H2]. apply N.eqb_eq in H1. apply N.eqb_eq in H2. subst.
     exists days. exact Hin.
 Qed.
@@ -408,7 +411,7 @@ Lemma run_refs_still : forall final S, still S final = true -> run_refs_ok S fin
   forall d s days, In (Pull d s days) final -> refs_delivered (get s S) (get d S) = true.
 Proof.
   induction final as [|o final IH]; intros S H Hc d s days Hin; [inversion Hin|].
-  destruct o as [p x t sg|p x t sg|p x t|p x y t sg|p x y t sg|d0 s0 days0]; cbn [still] in H; try discriminate.
+  destruct o as [p x t sg|p x0 t sgs|p x t sg|p x t|p x y t sg|p x y t sg|d0 s0 days0]; cbn [still] in H; try discriminate.
   apply Bool.andb_true_iff in H. destruct H as [H1 H2].
   cbn [run_refs_ok] in Hc. rewrite (step_still S d0 s0 days0 H1) in Hc.
   apply Bool.andb_true_iff in Hc. destruct Hc as [Hc0 Hc].
@@ -419,7 +422,7 @@ Lemma run_coherent_still : forall final S d s days, still S final = true -> run_
   In (Pull d s days) final -> forallb refs_coherent S = true.
 Proof.
   intros final S d s days H Hc Hin. destruct final as [|o final]; [inversion Hin|].
-  destruct o as [p x t sg|p x t sg|p x t|p x y t sg|p x y t sg|d0 s0 days0]; cbn [still] in H; try discriminate.
+  destruct o as [p x t sg|p x0 t sgs|p x t sg|p x t|p x y t sg|p x y t sg|d0 s0 days0]; cbn [still] in H; try discriminate.
   apply Bool.andb_true_iff in H. destruct H as [H1 _].
   cbn [run_refs_coherent] in Hc. rewrite (step_still S d0 s0 days0 H1) in Hc.
   apply Bool.andb_true_iff in Hc. apply Hc.
